@@ -6,6 +6,7 @@ from typing import List, Union, Any, Dict, Iterable
 from enum import Enum
 from copy import deepcopy
 from math import modf
+import os
 
 import numpy as np
 from scipy.integrate import solve_ivp
@@ -476,6 +477,18 @@ class TimeEvoMode(Enum):
                         TimeEvoMode.DOP853,
                         TimeEvoMode.BDF]
 
+# Verification hook (inactive unless PYTREENET_VERIF=1 and an observer is
+# registered): reports every local propagation to the registered observer.
+_VERIF_OBSERVER = None
+
+def _verif_register_observer(observer):
+    """
+    Registers (or with None removes) the observer called at the top of
+    `time_evolve` when the environment variable PYTREENET_VERIF is "1".
+    """
+    global _VERIF_OBSERVER
+    _VERIF_OBSERVER = observer
+
 def time_evolve(psi: np.ndarray, hamiltonian: np.ndarray,
                 time_difference: float,
                 forward: bool = True,
@@ -500,6 +513,8 @@ def time_evolve(psi: np.ndarray, hamiltonian: np.ndarray,
     Returns:
         np.ndarray: The time evolved state
     """
+    if _VERIF_OBSERVER is not None and os.environ.get("PYTREENET_VERIF") == "1":
+        _VERIF_OBSERVER(psi, hamiltonian, time_difference, forward, mode)
     sign = -2 * forward + 1  # forward=True -> -1; forward=False -> +1
     rhs_matrix = sign * 1.0j * hamiltonian
     if mode.is_scipy():
